@@ -63,13 +63,11 @@ class AFMWriter(ModelToText):
         children = relation.children
         result = ""
 
-        if len(children) == 1:
-            child = children[0]
-            if relation.card_min == 1 and relation.card_max == 1:
-                result = child.name
-            if relation.card_min == 0 and relation.card_max == 1:
-                result = "[" + child.name + "]"
-        else:
+        if len(children) == 1 and relation.card_min == 1 and relation.card_max == 1:
+            result = children[0].name
+        elif len(children) == 1 and relation.card_min == 0 and relation.card_max == 1:
+            result = "[" + children[0].name + "]"
+        else:  # every other relation, also a single child with another cardinality
             result = "[" + str(relation.card_min) + "," + \
                 str(relation.card_max) + "]"
             features = []
